@@ -55,6 +55,9 @@ func (sc *SchemaCache) schemaLocked(src protoreflect.MessageDescriptor) (RootSch
 	schemaPackage := sc.referencePackage(packageName)
 	verifhook.At("cache.lookup")
 	if built, ok := schemaPackage.Schemas[nameInPackage]; ok {
+		if err := built.claim(src); err != nil {
+			return nil, err
+		}
 		if built.To == nil {
 			// When building from reflection, the 'to' should be linked by the
 			// caller which created the ref.
@@ -66,6 +69,7 @@ func (sc *SchemaCache) schemaLocked(src protoreflect.MessageDescriptor) (RootSch
 	placeholder := &RefSchema{
 		Package: schemaPackage,
 		Schema:  nameInPackage,
+		source:  src.FullName(),
 	}
 	verifhook.At("cache.insert")
 	schemaPackage.Schemas[nameInPackage] = placeholder
